@@ -351,8 +351,19 @@ def r4_one_counter(ctx):
            sample={"sources": {("%s:%d" % (k.rsplit("::", 1)[-1], l)): v for (k, l), v in sources.items()}})
     # depth: only the iteration report of best_move carries a depth; a progress line that also carries one reports
     # the running iteration, which the (possibly aborted, depth - 1) iteration report that follows undercuts
-    deep = sorted("%s:%d" % (k.rsplit("::", 1)[-1], l) for (k, l), v in sources.items() if v.get("depth") == "set" and k != SEARCH + "best_move")
-    has_report = any(v.get("depth") == "set" and k == SEARCH + "best_move" for (k, l), v in sources.items())
+    # (the function that runs the iterations: the caller of search_negamax that is not search_negamax itself -
+    # Search::best_move on the reviewed tree; it may have been renamed, split or merged into go)
+    iter_fns = {k for k, g in prog.fns.items() if k != SEARCH + "search_negamax" and not g.get("test") and any(
+        bb["term"]["k"] == "call" and bb["term"]["callee"].get("key") == SEARCH + "search_negamax" for bb in g["blocks"])}
+    if len(iter_fns) != 1:
+        ctx.lost(rid, "the function that runs the iterations (callers of search_negamax: %s)" % sorted(x.rsplit("::", 1)[-1] for x in iter_fns))
+        return
+    ITER = next(iter(iter_fns))
+    deep = sorted("%s:%d" % (k.rsplit("::", 1)[-1], l) for (k, l), v in sources.items() if v.get("depth") == "set" and k != ITER)
+    if ITER != SEARCH + "best_move" and len([1 for (k, l), v in sources.items() if v.get("depth") == "set" and k == ITER]) > 1:
+        ctx.lost(rid, "which info line of %s is the iteration report (several carry a depth)" % ITER.rsplit("::", 1)[-1])
+        return
+    has_report = any(v.get("depth") == "set" and k == ITER for (k, l), v in sources.items())
     ctx.ob(rid, "depth-only-in-the-iteration-report", not deep and has_report,
            "" if (not deep and has_report) else ("info lines built outside Search::best_move carry a depth (%s): the iteration report of an interrupted iteration states depth - 1, so the reported depth decreases within one search" % deep if deep else "the iteration report of Search::best_move carries no depth"),
            "", sample={"depth_sources": {("%s:%d" % (k.rsplit("::", 1)[-1], l)): v.get("depth") for (k, l), v in sources.items()}})
